@@ -43,18 +43,40 @@ def build_harness(cmd="corr", tags="verif", race=False):
     """(Re)build go/cmd/<cmd> against REPO's current working tree with the hooks on.
     Returns (binary_path or None, log)."""
     os.makedirs(BUILD, exist_ok=True)
+    import fcntl
+    with open(os.path.join(BUILD, ".lock"), "w") as lk:      # checks may run in parallel: one harness build at a time
+        fcntl.flock(lk, fcntl.LOCK_EX)
+        return _build_harness_locked(cmd, tags, race)
+
+
+def _write_if_changed(path, content):
+    if os.path.exists(path) and open(path).read() == content:
+        return
+    tmp = path + ".tmp%d" % os.getpid()
+    with open(tmp, "w") as f:
+        f.write(content)
+    os.replace(tmp, path)
+
+
+def _build_harness_locked(cmd, tags, race):
     modfile = os.path.join(BUILD, "go.mod")
     base = open(os.path.join(GO, "go.mod")).read()
     base = re.sub(r"replace github.com/alibaba/sentinel-golang => .*", "replace github.com/alibaba/sentinel-golang => " + REPO, base)
-    with open(modfile, "w") as f:
-        f.write(base)
+    if os.path.exists(modfile):
+        # keep the requirements go has already resolved into the alternate go.mod (it rewrites it with -mod=mod)
+        cur = open(modfile).read()
+        if "replace github.com/alibaba/sentinel-golang => " + REPO in cur and "module verifharness" in cur:
+            base = cur
+    _write_if_changed(modfile, base)
     # go.sum next to the alternate go.mod
     sums = set()
     for p in (os.path.join(REPO, "go.sum"), os.path.join(GO, "go.sum")):
         if os.path.exists(p):
             sums.update(l for l in open(p).read().splitlines() if l.strip())
-    with open(os.path.join(BUILD, "go.sum"), "w") as f:
-        f.write("\n".join(sorted(sums)) + "\n")
+    sumfile = os.path.join(BUILD, "go.sum")
+    if os.path.exists(sumfile):
+        sums.update(l for l in open(sumfile).read().splitlines() if l.strip())
+    _write_if_changed(sumfile, "\n".join(sorted(sums)) + "\n")
     out = os.path.join(BUILD, cmd + ("-race" if race else ""))
     args = ["go", "build", "-modfile=" + modfile, "-tags", tags, "-o", out]
     if race:
